@@ -66,3 +66,42 @@ Section T01.
     cbn [get finish fst snd]. unfold viol, py_sum, encode_vars. rewrite zip_map2. reflexivity.
   Qed.
 End T01.
+
+(* ---- C01 (clause 1) stated about the GENERATED Problem.__call__: whatever six attribute values the definition
+   produced from the source text stores, the solution carrying them is Good (flag set; objectives and constraint
+   values are the user's function of the solution's OWN decoded variables; violation and feasibility derived from
+   them) and has the same decoded variables as before.  [roundtrip] is the types' decode/encode law
+   (identity for Real/Binary/Permutation/Subset, C17 for Integer). ---- *)
+From PV Require Import Model.AlgSkeleton Proofs.EvaluateProofs Props.C01.
+
+Section C01_generated.
+  Variable V : Type.
+  Variable O : NumOps V.
+  Variable Val Ty : Type.
+  Variable decode encode : Ty -> Val -> Val.
+  Variable F : list Val -> list V * list V.
+  Variable C : list (V -> V).
+  Variable types : list Ty.
+  Hypothesis roundtrip : forall t v, In t types -> decode t (encode t (decode t v)) = decode t v.
+  Local Notation nzero := (n_lit O 0%Q).
+  Local Notation niszero := (fun v => n_eq O v (n_lit O 0%Q)).
+
+  Theorem tie_c01_generated_problem_call_good : forall (s : sol Val V) v' o' c' cv' f' e',
+    length (vars s) = length types ->
+    Core.Problem_call V O Val Ty F decode encode types (Z.of_nat (length types)) C
+                      (vars s) (objs s) (cons s) (cv s) (feasible s) (evaluated s) = Some (v', o', c', cv', f', e') ->
+    Good Val V Ty decode F C (n_abs O) (n_add O) nzero niszero types (mkSol (sid s) v' o' c' cv' f' e') /\
+    decode_vars Val Ty decode types v' = decode_vars Val Ty decode types (vars s).
+  Proof.
+    intros s v' o' c' cv' f' e' L H.
+    rewrite (tie_problem_call V O Val Ty decode encode F C types s L) in H.
+    pose proof (c01_problem_call_good Val V Ty decode encode F C (n_abs O) (n_add O) nzero niszero types roundtrip s) as G.
+    pose proof (c01_problem_call_keeps_variables Val V Ty decode encode F C (n_abs O) (n_add O) nzero niszero types roundtrip s) as [Hs Hd].
+    remember (problem_call Val V Ty decode encode F C (n_abs O) (n_add O) nzero niszero types s) as m eqn:Em.
+    clear Em. destruct m as [i1 v1 o1 c1 cv1 f1 e1]. cbn [sid vars objs cons cv feasible evaluated] in *.
+    injection H as Hv Ho Hc Hcv Hf He. subst v' o' c' cv' f' e' i1.
+    split; [exact G|exact Hd].
+  Qed.
+End C01_generated.
+
+Print Assumptions tie_c01_generated_problem_call_good.
